@@ -169,6 +169,14 @@ static std::vector<std::string> hist_gen(const GenArgs &ga) {
     mix = {{"new", 14}, {"compile", 24}, {"take", 9}, {"run", 14}, {"runc", 9}, {"freep", 9}, {"freec", 7},
            {"reset", 7}, {"debug", 2}, {"append", 6}, {"rawalloc", sw.chance(1, 3) ? 8 : 0}, {"parse", use_corpus ? 6 : 0}};
     if (sw.chance(1, 4)) debug_env = (int)sw.below(6);
+    if (sw.chance(1, 4)) {
+      // allocator-churn member: many small functions handed out and freed in arbitrary order, so that chunks are
+      // split between live neighbours and merged in both directions while code objects outlive their programs
+      nops = 40 + (int)sw.below(thorough ? 81 : 41);
+      cycles = 3;
+      maxlen = 8;
+      mix = {{"new", 16}, {"compile", 26}, {"take", 18}, {"runc", 10}, {"freep", 12}, {"freec", 16}, {"run", 4}, {"rawalloc", 6}};
+    }
   } else {  // C17
     oracles = "det";
     static const char *codes[] = {"-", "-", "-", "-", "debug"};
